@@ -89,7 +89,19 @@ pub fn run(ctx: &mut Ctx) {
         st.presolve_enable = false;
         st.equilibrate_enable = rng.bool(0.85);
         st.equilibrate_max_iter = *rng.choose(&[0, 1, 2, 3, 5, 10, 14, 20]);
-        let (lo, hi) = *rng.choose(&[(1e-4, 1e4), (1e-2, 1e2), (1.0, 1.0), (1e-8, 1e8), (1e-1, 1e3)]);
+        let (mut lo, mut hi) = *rng.choose(&[(1e-4, 1e4), (1e-2, 1e2), (1.0, 1.0), (1e-8, 1e8), (1e-1, 1e3)]);
+        // "all equilibrate_* settings": intervals that do not contain 1 (every factor has to move away from the
+        // identity scaling).  Two clauses of the property contradict each other there for all-zero rows and columns
+        // ("left unscaled" = 1 is outside the interval), so those entries are exempt from both in this slice, and
+        // at least one Ruiz pass is requested (with none, nothing is scaled at all)
+        let excl = rng.bool(0.15);
+        if excl {
+            (lo, hi) = *rng.choose(&[(2.0, 8.0), (0.01, 0.5), (3.0, 3.0), (1.5, 1e4), (1e-4, 0.75)]);
+            if st.equilibrate_max_iter == 0 {
+                st.equilibrate_max_iter = *rng.choose(&[1, 2, 10]);
+            }
+            ctx.bump("scaling_intervals_not_containing_1");
+        }
         st.equilibrate_min_scaling = lo;
         st.equilibrate_max_scaling = hi;
         let st2 = st.clone();
@@ -116,6 +128,11 @@ pub fn run(ctx: &mut Ctx) {
             bad("sizes", json!({"d": eq.d.len(), "e": eq.e.len()}));
         } else {
             // positivity, inverses, bounds
+            let (zero_col, zero_row): (Vec<bool>, Vec<bool>) = {
+                let ad0 = Dense::from_csc(&p.A);
+                let ps0 = p.P_sym();
+                ((0..n).map(|j| (0..m).all(|i| ad0.get(i, j) == 0.0) && (0..n).all(|i| ps0.get(i, j) == 0.0)).collect(), (0..m).map(|i| (0..n).all(|j| ad0.get(i, j) == 0.0)).collect())
+            };
             let ulps = 8.0 + 4.0 * st.equilibrate_max_iter as f64;
             for (name, v, vi) in [("d", &eq.d, &eq.dinv), ("e", &eq.e, &eq.einv)] {
                 for k in 0..v.len() {
@@ -125,7 +142,8 @@ pub fn run(ctx: &mut Ctx) {
                     if rel_ulps(vi[k] * v[k], 1.0) > 2.0 {
                         bad("inverse_mismatch", json!({"vector": name, "k": k, "v": v[k], "vinv": vi[k]}));
                     }
-                    if st.equilibrate_enable && !(v[k] >= lo * (1.0 - 4.0 * U) && v[k] <= hi * (1.0 + 4.0 * U)) {
+                    let exempt = excl && v[k] == 1.0 && if name == "d" { zero_col[k] } else { zero_row[k] };
+                    if st.equilibrate_enable && !exempt && !(v[k] >= lo * (1.0 - 4.0 * U) && v[k] <= hi * (1.0 + 4.0 * U)) {
                         bad("scaling_out_of_bounds", json!({"vector": name, "k": k, "value": v[k], "min": lo, "max": hi}));
                     }
                 }
@@ -133,7 +151,10 @@ pub fn run(ctx: &mut Ctx) {
             if !(eq.c.is_finite() && eq.c > 0.0) {
                 bad("scaling_not_positive_finite", json!({"vector": "c", "value": problem::fj(eq.c)}));
             }
-            if st.equilibrate_enable && !(eq.c >= lo * (1.0 - 4.0 * U) && eq.c <= hi * (1.0 + 4.0 * U)) {
+            // (the objective is "left unscaled" too when P or q is entirely zero: same exemption in the slice of
+            // intervals that exclude 1)
+            let c_exempt = excl && eq.c == 1.0 && (p.P.nzval.iter().all(|v| *v == 0.0) || p.q.iter().all(|v| *v == 0.0));
+            if st.equilibrate_enable && !c_exempt && !(eq.c >= lo * (1.0 - 4.0 * U) && eq.c <= hi * (1.0 + 4.0 * U)) {
                 bad("scaling_out_of_bounds", json!({"vector": "c", "value": eq.c, "min": lo, "max": hi}));
             }
             // model data: P triu, b capped
@@ -197,7 +218,7 @@ pub fn run(ctx: &mut Ctx) {
                     let zero = (0..m).all(|i| ad.get(i, j) == 0.0) && (0..n).all(|i| ps.get(i, j) == 0.0);
                     if zero {
                         ctx.bump("zero_columns_seen");
-                        if eq.d[j] != 1.0 {
+                        if eq.d[j] != 1.0 && !excl {
                             bad("zero_column_scaled", json!({"j": j, "d": eq.d[j]}));
                         }
                     }
@@ -208,7 +229,7 @@ pub fn run(ctx: &mut Ctx) {
                         for i in r {
                             if (0..n).all(|j| ad.get(i, j) == 0.0) {
                                 ctx.bump("zero_rows_in_scalar_cones_seen");
-                                if eq.e[i] != 1.0 {
+                                if eq.e[i] != 1.0 && !excl {
                                     bad("zero_row_scaled", json!({"i": i, "e": eq.e[i]}));
                                 }
                             }
